@@ -41,6 +41,10 @@ Static rules (DESIGN.md §C02, engine sa/tabchain.py):
                 silently ignored by another)
  unit-vector    (shared with C06) `v[k] /= n`, n = sqrt(sum v[i]^2): guarded against n == 0 in functions reachable
                 from python in which n occurs in no other denominator
+ expnt-kind     get_function_to_convolve (inherited): the method of self that supplies the factor for rho_mult='expnt'
+                is resolved through the MRO of every plan class; its first result is the exponent (eval_feat_exp), never
+                an exponent that went through get_a2q_fast (exponent -> index)
+ mole-rebuild   (shared with C06) a pyscf Mole constructed from <mol>.atom also receives unit=<mol>.unit
  delegate-forward  a function of settings.py / plans.py that delegates to a same-module function forwards
                 every parameter the two share, unless it uses it itself (get_cider_exponent_gga -> nspin)
  alpha-degree   units-of-measure: degree (in exponent units) of each integral relative to the `se`
@@ -517,9 +521,14 @@ class IChain:
         # the dispatch may sit in the anchored function or in a helper it calls
         lads = [(f, l) for f, l in tc.c_dispatch_tables_deep(tu, LADDER_FUNC)
                 if all(tc.single_assignment(a["stmt"]) and tc.func_ref(tc.single_assignment(a["stmt"])[1]) for a in l["arms"])]
+        if not lads:
+            # third spelling of the same table: a constant array of function pointers indexed by the id
+            tab = self._fptr_table_dispatch(tu)
+            if tab is not None:
+                lads = [tab]
         if len(lads) != 1:
-            raise core.AnalysisError("%s: expected one dispatch (`if (id == k) fptr = &f` ladder or switch), found %d" % (
-                LADDER_FUNC, len(lads)))
+            raise core.AnalysisError("%s: expected one dispatch (`if (id == k) fptr = &f` ladder, switch, or constant table of "
+                                     "function pointers indexed by the id), found %d" % (LADDER_FUNC, len(lads)))
         self.ladder_func, lad = lads[0]
         self.ladder_falls = lad["falls"]
         ps = tu.params(LADDER_FUNC)
@@ -620,6 +629,32 @@ class IChain:
         # evaluate integral functions
         self.ev = tc.Ev(tu, {"alpha": ONE, "expi": ONE, "expj": ONE})
         self.values = {}
+
+    def _fptr_table_dispatch(self, tu):
+        """`fptr = TABLE[id]` with TABLE a file-scope constant array of functions -> a dispatch in the ladder shape"""
+        tables = tc.fptr_tables(tu)
+        if not tables:
+            return None
+        for fname in [LADDER_FUNC] + [nm for nm, _, _ in tc.callees_of(tu, LADDER_FUNC, 2)]:
+            pn = [p.get("name") for p in tu.params(fname)]
+            for n in tc.walk_stmts(tu.body(fname)):
+                if n.get("kind") != "ArraySubscriptExpr":
+                    continue
+                base, idx = [cfacts.strip(c) for c in cfacts.kids(n)]
+                if base.get("kind") == "DeclRefExpr" and base["referencedDecl"].get("name") in tables \
+                        and idx.get("kind") == "DeclRefExpr" and idx["referencedDecl"].get("name") in pn:
+                    tname = base["referencedDecl"]["name"]
+                    arms = []
+                    for k, f in sorted(tables[tname].items()):
+                        fake_rhs = {"kind": "DeclRefExpr", "referencedDecl": {"kind": "FunctionDecl", "name": f},
+                                    "range": n.get("range", {})}
+                        fake_lhs = {"kind": "DeclRefExpr", "referencedDecl": {"kind": "VarDecl", "name": "%s[%d]" % (tname, k)},
+                                    "range": n.get("range", {}), "type": {"qualType": "double (*)(int, double, double, double)"}}
+                        stmt = {"kind": "BinaryOperator", "opcode": "=", "inner": [fake_lhs, fake_rhs], "range": n.get("range", {})}
+                        arms.append({"values": [k], "stmt": stmt, "node": n})
+                    return fname, {"var": idx["referencedDecl"]["name"], "var_node": idx, "arms": arms, "orelse": None,
+                                   "node": n, "form": "table", "falls": []}
+        return None
 
     def value(self, fname):
         if fname not in self.values:
@@ -1638,6 +1673,103 @@ def rule_dispatch_siblings(chk):
 
 
 # ----------------------------------------------------------------------------------------------
+# expnt-kind: the quantity multiplied into the density for rho_mult='expnt' is the exponent in every plan class
+# ----------------------------------------------------------------------------------------------
+EXP_SOURCES = {"eval_feat_exp"}          # returns (exponent, derivatives)
+INDEX_MAKERS = {"get_a2q_fast", "get_a2q"}  # exponent -> (fractional) ladder / knot index  (see inverse-pair)
+
+
+def _ret_kinds(prog, mod, cls, mname, seen=None):
+    """kinds {'EXP', 'INDEX', '?'} of the FIRST element returned by cls.mname (resolved through the MRO)"""
+    seen = seen or set()
+    if (cls.name, mname) in seen:
+        return set()
+    seen = seen | {(cls.name, mname)}
+    if mname in EXP_SOURCES:
+        return {"EXP"}
+    if mname in INDEX_MAKERS:
+        return {"INDEX"}
+    r = prog.find_method(mod, cls, mname)
+    if r is None:
+        return {"?"}
+    fn = r[2]
+
+    def first(e):
+        return e.elts[0] if isinstance(e, ast.Tuple) and e.elts else e
+
+    def kind(e, depth=0):
+        e = first(e)
+        if isinstance(e, ast.Call) and isinstance(e.func, ast.Attribute) and pf.src(e.func.value) == "self":
+            return _ret_kinds(prog, mod, cls, e.func.attr, seen)
+        if isinstance(e, ast.Name) and depth < 5:
+            out = set()
+            for n in pf.walk_no_nested(fn):
+                if isinstance(n, ast.Assign) and len(n.targets) == 1:
+                    t = n.targets[0]
+                    if isinstance(t, ast.Name) and t.id == e.id:
+                        out |= kind(n.value, depth + 1)
+                    elif isinstance(t, ast.Tuple) and t.elts and isinstance(t.elts[0], ast.Name) and t.elts[0].id == e.id:
+                        out |= kind(n.value, depth + 1)
+                    elif isinstance(t, ast.Tuple) and any(isinstance(x, ast.Name) and x.id == e.id for x in t.elts[1:]):
+                        out |= {"?"}
+            return out or {"?"}
+        return {"?"}
+
+    out = set()
+    for n in pf.walk_no_nested(fn):
+        if isinstance(n, ast.Return) and n.value is not None:
+            out |= kind(n.value)
+    if all(isinstance(x, ast.Pass) or (isinstance(x, ast.Expr) and isinstance(x.value, ast.Constant)) for x in fn.body):
+        return set()  # abstract stub
+    return out or {"?"}
+
+
+def rule_expnt_kind(chk):
+    """docs (ALLOWED_RHO_MULTS): 'expnt' multiplies the density by the NLDF exponent.  get_function_to_convolve is
+    inherited by every plan class; the method it calls on `self` for that factor is resolved per concrete class: in
+    none of them may it return an exponent that went through the exponent -> index conversion."""
+    prog = pf.Program(chk.tree, [PLANS])
+    mod = prog.module(PLANS)
+    base = None
+    for m, c in prog.all_classes():
+        if "get_function_to_convolve" in pf.methods(c):
+            base = c
+    if base is None:
+        raise core.AnalysisError("get_function_to_convolve vanished from plans.py")
+    fn = pf.methods(base)["get_function_to_convolve"]
+    calls = []
+    for n in pf.walk_no_nested(fn):
+        if isinstance(n, ast.Assign) and isinstance(n.value, ast.Call) and isinstance(n.value.func, ast.Attribute) \
+                and pf.src(n.value.func.value) == "self" and isinstance(n.targets[0], ast.Tuple):
+            conds = [pf.src(t) for t, pol, _ in __import__("sa.cfg", fromlist=["x"]).conditions_at(n) if pol]
+            if any("expnt" in c for c in conds):
+                calls.append(n)
+    if not calls:
+        raise core.AnalysisError("get_function_to_convolve: the rho_mult == 'expnt' branch calls no method of self")
+    subs = [(m, c) for m, c in prog.subclasses(base.name)]
+    n_ = 0
+    for call in calls:
+        mname = call.value.func.attr
+        for m, c in subs:
+            ks = _ret_kinds(prog, m, c, mname)
+            if not ks:
+                continue  # abstract in this class
+            n_ += 1
+            inst = "%s: self.%s(...) in the expnt branch returns %s" % (c.name, mname, "/".join(sorted(ks)))
+            if "INDEX" in ks:
+                chk.violation("expnt-kind", PLANS, "%s.get_function_to_convolve" % base.name, pf.src(call)[:120], call.lineno,
+                              "for rho_mult='expnt' the density is multiplied by the NLDF exponent; in class %s `self.%s` "
+                              "resolves to a method whose first result is the exponent converted to a ladder/knot index (%s): "
+                              "the convolved function is rho * index there" % (c.name, mname, ", ".join(sorted(INDEX_MAKERS))),
+                              instance=inst)
+            elif ks == {"EXP"}:
+                chk.ok("expnt-kind", inst)
+            else:
+                chk.ok("expnt-kind", inst + " (not traced)", nontrivial=False)
+    chk.count("plan classes resolved for the expnt factor", n_)
+
+
+# ----------------------------------------------------------------------------------------------
 # delegation: a wrapper forwards the parameters it shares with the function it delegates to
 # ----------------------------------------------------------------------------------------------
 DELEGATE_FILES = [SETTINGS, PLANS]
@@ -1761,7 +1893,17 @@ def _analyse_own(chk):
 
     chk.guard(_unit)
     chk.rule("unit-vector", "a vector divided by its own norm is guarded against norm == 0 (shared with C06)")
-    chk.floor("unit-vector", 6, "12 today")
+    chk.floor("unit-vector", 3, "one per (function, vector): 5 today")
+    chk.guard(rule_expnt_kind)
+    chk.rule("expnt-kind", "the factor of rho_mult='expnt' is the exponent (never the spline/ladder index) in every plan class")
+    chk.floor("expnt-kind", 2, "NLDFAuxiliaryPlan, NLDFGaussianPlan, NLDFSplinePlan")
+
+    def _mole(c):
+        import importlib
+        importlib.import_module("checks.c06").rule_mole_rebuild(c)
+
+    chk.guard(_mole)
+    chk.rule("mole-rebuild", "a Mole rebuilt from mol.atom carries mol.unit (shared with C06)")
     chk.guard(rule_result_used)
     chk.guard(rule_symmetric_operand)
     chk.rule("result-used", "a same-module function that only returns its result is not called as a statement")
@@ -1896,6 +2038,10 @@ def mutants(tree):
                "    ylm[1 * lp1 + 0]", expect="sph-bounds"),
         Mutant("fast SDMX dispatcher ignores settings.mode", "ciderpress/pyscf/sdmx.py", fn=_drop_mode_check, expect="dispatch-siblings"),
         Mutant("SDMXylm_loop normalises without a guard", cfacts.LIB + "/mod_cider/fast_sdmx.c", fn=_unguard_sdmx, expect="unit-vector"),
+        Mutant("expnt factor taken from the interpolation arguments", PLANS, "a, da_tuple = self.eval_feat_exp(rho_tuple, i=-1)",
+               "a, da_tuple = self.get_interpolation_arguments(rho_tuple, i=-1)", expect="expnt-kind"),
+        Mutant("auxiliary Mole rebuilt without the unit", "ciderpress/pyscf/nldf_convolutions.py", "            unit=mol.unit,\n", "",
+               expect="mole-rebuild"),
         Mutant("knot-index scaling off by one", PLANS, "di[:] *= (self._spline_size - 1) / (self.nalpha - 1)",
                "di[:] *= self._spline_size / self.nalpha", expect="inverse-pair"),
         Mutant("knot layout off by one", PLANS, "interp_indexes * (self.nalpha - 1) / (self._spline_size - 1)",
